@@ -661,52 +661,89 @@ Proof. induction cs as [|c cs IH]; simpl; lia. Qed.
 
 Lemma expand_bound f c : psize (expand f c) <= call_bound.
 Proof.
-  unfold call_bound. destruct c as [a|n g|n|n|k n|g|]; simpl; try lia.
-  - pose proof (psize_calls_then (replay f n) (PRel PRaise) (after_replay k n)) as H.
+  unfold call_bound. destruct c as [a|n g|n|n|k n|g|].
+  - simpl; lia.
+  - simpl; lia.
+  - simpl; lia.
+  - simpl; lia.
+  - rewrite expand_outcome.
+    pose proof (psize_calls_then (replay f n) (PRel PRaise) (after_replay k n)) as H.
     assert (L : length (replay f n) <= 5) by (unfold replay; destruct (any_tags (f_global f)), (any_tags (f_test f)); simpl; lia).
     change (psize (PRel PRaise)) with 1 in H. change (psize (after_replay k n)) with 3 in H.
-    change (PLoc LClearTestTags _) with (after_replay k n). simpl in H. lia.
+    change (psize (PAcq ?r)) with (S (psize r)). simpl Nat.max in H. lia.
   - destruct g; simpl; lia.
+  - simpl; lia.
 Qed.
+
+Lemma load_cons cont c r f :
+  load cont (c :: r) f = match settle (expand f c) f with
+                         | (PEnd, f') => load cont r f'
+                         | (PRaise, f') => if cont then load cont r f' else (PRaise, r, f')
+                         | (p, f') => (p, r, f')
+                         end.
+Proof. reflexivity. Qed.
 
 Lemma load_measure cont s : forall f,
   let '(p, s', f') := load cont s f in psize p + call_bound * length s' <= call_bound * length s.
 Proof.
-  induction s as [|c r IH]; intro f; simpl; [lia|].
-  pose proof (settle_psize (expand f c) f) as Hs. pose proof (expand_bound f c) as Hb.
-  destruct (settle (expand f c) f) as [p f']; simpl in Hs.
-  destruct p; simpl in *; try lia.
-  - specialize (IH f'). destruct (load cont r f') as [[p' s'] f'']. lia.
-  - destruct cont.
-    + specialize (IH f'). destruct (load true r f') as [[p' s'] f'']. lia.
-    + simpl. lia.
+  induction s as [|c r IH]; intro f.
+  - simpl. lia.
+  - rewrite load_cons.
+    pose proof (settle_psize (expand f c) f) as Hs. pose proof (expand_bound f c) as Hb.
+    destruct (settle (expand f c) f) as [p f']. simpl fst in Hs.
+    change (length (c :: r)) with (S (length r)). unfold call_bound in *.
+    destruct p.
+    + specialize (IH f'). destruct (load cont r f') as [[p' s'] f'']. lia.
+    + destruct cont.
+      * specialize (IH f'). destruct (load true r f') as [[p' s'] f'']. lia.
+      * lia.
+    + lia.
+    + lia.
+    + lia.
+    + lia.
 Qed.
+
+Lemma resume_cons s r f :
+  resume (s :: r) f = match load false s f with
+                      | (PRaise, _, f') => resume r f'
+                      | (p, s', f') => (p, s', f', r)
+                      end.
+Proof. reflexivity. Qed.
 
 Lemma resume_measure fbs : forall f,
   let '(p, s', f', fbs') := resume fbs f in
   psize p + call_bound * length s' + call_bound * length (concat fbs') <= call_bound * length (concat fbs).
 Proof.
-  induction fbs as [|s r IH]; intro f; simpl; [lia|].
-  pose proof (load_measure false s f) as HL. rewrite app_length.
-  destruct (load false s f) as [[p s'] f'].
-  destruct p; simpl in *; try lia.
-  specialize (IH f'). destruct (resume r f') as [[[p'' s''] f''] fbs']. lia.
+  induction fbs as [|s r IH]; intro f.
+  - simpl. lia.
+  - rewrite resume_cons. pose proof (load_measure false s f) as HL.
+    change (concat (s :: r)) with (s ++ concat r). rewrite app_length.
+    destruct (load false s f) as [[p s'] f']. unfold call_bound in *.
+    destruct p.
+    + lia.
+    + specialize (IH f'). destruct (resume r f') as [[[p'' s''] f''] fbs']. lia.
+    + lia.
+    + lia.
+    + lia.
+    + lia.
 Qed.
 
 Lemma norm_measure th : tmeasure (norm th) <= tmeasure th.
 Proof.
   unfold norm, tmeasure. pose proof (settle_psize (pc th) (fw th)) as Hs.
   destruct (settle (pc th) (fw th)) as [p f]; simpl in Hs. rewrite <- Hs.
-  destruct p; simpl; destruct (fb th) as [fbs|]; simpl; try lia.
+  destruct p; destruct (fb th) as [fbs|]; simpl; try lia.
   - pose proof (load_measure false (script th) f) as HL.
     destruct (load false (script th) f) as [[p' s'] f'].
-    destruct p'; simpl in *; try lia.
-    pose proof (resume_measure fbs f') as HR. destruct (resume fbs f') as [[[p'' s''] f''] fbs']. simpl. lia.
+    destruct p'; try (unfold call_bound in *; simpl in *; lia).
+    pose proof (resume_measure fbs f') as HR. destruct (resume fbs f') as [[[p'' s''] f''] fbs'].
+    unfold call_bound in *; simpl in *; lia.
   - pose proof (load_measure true (script th) f) as HL.
-    destruct (load true (script th) f) as [[p' s'] f']. simpl. lia.
-  - pose proof (resume_measure fbs f) as HR. destruct (resume fbs f) as [[[p'' s''] f''] fbs']. simpl. lia.
+    destruct (load true (script th) f) as [[p' s'] f']. unfold call_bound in *; simpl in *; lia.
+  - pose proof (resume_measure fbs f) as HR. destruct (resume fbs f) as [[[p'' s''] f''] fbs'].
+    unfold call_bound in *; simpl in *; lia.
   - pose proof (load_measure true (script th) f) as HL.
-    destruct (load true (script th) f) as [[p' s'] f']. simpl. lia.
+    destruct (load true (script th) f) as [[p' s'] f']. unfold call_bound in *; simpl in *; lia.
 Qed.
 
 Lemma tstep_measure th e th' : tstep th = Some (e, th') -> tmeasure th' < tmeasure th.
@@ -870,4 +907,272 @@ Proof.
   - apply sectb_sections. exact H3.
   - intros t sc fl Ht Hw. rewrite forallb_idx_spec in H4. specialize (H4 t (sc, fl) Ht).
     unfold thread_okb in H4; simpl in H4. rewrite Hw in H4. apply (list_eqb_spec _ gev_eqb_spec). exact H4.
+Qed.
+
+(* ====================================================================================== *)
+(* 7. the named clauses, for every schedule                                                  *)
+(* ====================================================================================== *)
+Lemma t_in_block th : t_in th -> in_block th = true.
+Proof. intros [Hw Hn]. unfold in_block. destruct (pc th); simpl in *; try discriminate; reflexivity. Qed.
+Lemma t_out_block th : t_out th -> in_block th = false.
+Proof. intros [Hw _]. unfold in_block. destruct (pc th); simpl in *; try discriminate; reflexivity. Qed.
+
+Lemma inv_mutex c : Inv c ->
+  (forall t th, nth_error (ths c) t = Some th -> (sem c = Some t <-> in_block th = true))
+  /\ (forall t u tht thu, nth_error (ths c) t = Some tht -> nth_error (ths c) u = Some thu ->
+        in_block tht = true -> in_block thu = true -> t = u).
+Proof.
+  intros [HI HB].
+  assert (A : forall t th, nth_error (ths c) t = Some th -> (sem c = Some t <-> in_block th = true)).
+  { intros t th Ht. specialize (HI t th Ht). unfold holds in HI. split.
+    - intros Hs. rewrite Hs, Nat.eqb_refl in HI. apply t_in_block; exact HI.
+    - intros Hb. destruct (sem c) as [u|].
+      + revert HI. destruct (u =? t) eqn:E; intro HI; [apply Nat.eqb_eq in E; subst; reflexivity|].
+        apply t_out_block in HI. congruence.
+      + apply t_out_block in HI. congruence. }
+  split; [exact A|].
+  intros t u tht thu Ht Hu Bt Bu. apply (A t tht Ht) in Bt. apply (A u thu Hu) in Bu. congruence.
+Qed.
+
+Theorem mutex_all_schedules l sched :
+  let c := fold_left step' sched (init l) in
+  (forall t th, nth_error (ths c) t = Some th -> (sem c = Some t <-> in_block th = true))
+  /\ (forall t u tht thu, nth_error (ths c) t = Some tht -> nth_error (ths c) u = Some thu ->
+        in_block tht = true -> in_block thu = true -> t = u).
+Proof. apply inv_mutex. apply (ginv_sched l sched). Qed.
+
+Lemma inv_release c : Inv c -> (forall t th, nth_error (ths c) t = Some th -> in_block th = false) -> sem c = None.
+Proof.
+  intros [HI HB] H. destruct (sem c) as [u|] eqn:Es; [|reflexivity]. exfalso.
+  assert (Hu : u < length (ths c)) by (apply HB; reflexivity).
+  destruct (nth_error (ths c) u) as [th|] eqn:Eu; [|apply nth_error_None in Eu; lia].
+  pose proof (HI u th Eu) as Hin. unfold holds in Hin. rewrite Es, Nat.eqb_refl in Hin.
+  apply t_in_block in Hin. rewrite (H u th Eu) in Hin. discriminate.
+Qed.
+
+Theorem release_all_schedules l sched :
+  let c := fold_left step' sched (init l) in
+  (forall t th, nth_error (ths c) t = Some th -> in_block th = false) -> sem c = None.
+Proof. simpl. apply inv_release. apply (ginv_sched l sched). Qed.
+
+Theorem no_deadlock_all_schedules l sched :
+  let c := fold_left step' sched (init l) in
+  (exists t th, nth_error (ths c) t = Some th /\ finished th = false) -> exists t, step c t <> None.
+Proof. simpl. apply inv_no_deadlock. apply (ginv_sched l sched). Qed.
+
+(* the harness scheduler's run is one of the schedules, and it ends with every thread finished *)
+Lemma sched_step_is_schedule c t : exists s, sched_step c t = fold_left step' s c.
+Proof.
+  unfold sched_step. destruct (pick_from c (rot (length (ths c)) t)) as [c'|] eqn:E.
+  - destruct (pick_from_some _ _ _ E) as [u Hu]. exists [u]. simpl. unfold step'. rewrite Hu. reflexivity.
+  - exists []. reflexivity.
+Qed.
+
+Lemma fold_sched_is_schedule sched : forall c, exists s, fold_left sched_step sched c = fold_left step' s c.
+Proof.
+  induction sched as [|t r IH]; intro c; simpl.
+  - exists []. reflexivity.
+  - destruct (sched_step_is_schedule c t) as [s1 E1]. destruct (IH (sched_step c t)) as [s2 E2].
+    exists (s1 ++ s2). rewrite fold_left_app, <- E1. exact E2.
+Qed.
+
+Lemma drain_is_schedule fuel : forall c, exists s, drain fuel c = fold_left step' s c.
+Proof.
+  induction fuel as [|k IH]; intro c; simpl.
+  - exists []. reflexivity.
+  - destruct (pick_from c (seq 0 (length (ths c)))) as [c'|] eqn:E.
+    + destruct (pick_from_some _ _ _ E) as [u Hu]. destruct (IH c') as [s Es].
+      exists (u :: s). simpl. unfold step' at 2. rewrite Hu. exact Es.
+    + exists []. reflexivity.
+Qed.
+
+Theorem run_terminates l sched :
+  all_finished (run l sched) = true /\ sem (run l sched) = None
+  /\ exists s, run l sched = fold_left step' s (init l).
+Proof.
+  destruct (run_ginv l sched) as [HG Hf]. split; [exact Hf|]. split; [apply finished_sem_free; [apply HG | exact Hf]|].
+  unfold run. destruct (fold_sched_is_schedule sched (init l)) as [s1 E1].
+  destruct (drain_is_schedule (cmeasure (fold_left sched_step sched (init l))) (fold_left sched_step sched (init l))) as [s2 E2].
+  exists (s1 ++ s2). rewrite fold_left_app, <- E1. exact E2.
+Qed.
+
+(* ---------- the log is a sequence of single-owner sections, the last one possibly open ---------- *)
+Definition open_tail (n : nat) (h : option tid) (tail : list (tid * gev)) : Prop :=
+  match h with
+  | None => tail = []
+  | Some t => exists body, tail = (t, EAcq) :: map (pair t) body /\ Forall is_call body /\ t < n
+  end.
+Definition sec_ok (n : nat) (s : tid * list gev) : Prop := fst s < n /\ Forall is_call (snd s).
+
+Lemma mon_sections n log :
+  (forall h, mon n None log = Some h ->
+     exists secs tail, log = flat_map render secs ++ tail /\ Forall (sec_ok n) secs /\ open_tail n h tail)
+  /\ (forall t h, mon n (Some t) log = Some h ->
+        (exists body, log = map (pair t) body /\ Forall is_call body /\ h = Some t)
+        \/ (exists body secs tail, log = map (pair t) body ++ (t, ERel) :: flat_map render secs ++ tail
+                                   /\ Forall is_call body /\ Forall (sec_ok n) secs /\ open_tail n h tail)).
+Proof.
+  induction log as [|[u e] r [IH1 IH2]]; split.
+  - intros h H; injection H as <-. exists [], []. repeat split; constructor.
+  - intros t h H; injection H as <-. left. exists []. repeat split; constructor.
+  - intros h. simpl. destruct e; simpl; try discriminate.
+    destruct (u <? n) eqn:Elt; [|discriminate]. apply Nat.ltb_lt in Elt. intro H.
+    destruct (IH2 u h H) as [(body & -> & Hb & ->)|(body & secs & tail & -> & Hb & Hs & Ho)].
+    + exists [], ((u, EAcq) :: map (pair u) body). simpl. repeat split; [constructor|]. exists body. auto.
+    + exists ((u, body) :: secs), tail. repeat split.
+      * simpl. unfold render at 1. simpl. unfold section. rewrite map_app. simpl. rewrite <- !app_assoc. reflexivity.
+      * constructor; [split; assumption | exact Hs].
+      * exact Ho.
+  - intros t h. simpl. destruct e; simpl; try discriminate.
+    + destruct (t =? u) eqn:E; [|discriminate]. apply Nat.eqb_eq in E; subst u.
+      destruct (t <? n); [|discriminate]. intro H.
+      destruct (IH1 h H) as (secs & tail & -> & Hs & Ho).
+      right. exists [], secs, tail. repeat split; [constructor | exact Hs | exact Ho].
+    + destruct (t =? u) eqn:E; [|discriminate]. apply Nat.eqb_eq in E; subst u.
+      destruct (t <? n); [|discriminate]. intro H.
+      destruct (IH2 t h H) as [(body & -> & Hb & ->)|(body & secs & tail & -> & Hb & Hs & Ho)].
+      * left. exists (ECall c raised :: body). repeat split. constructor; [exact I | exact Hb].
+      * right. exists (ECall c raised :: body), secs, tail. repeat split; auto. constructor; [exact I | exact Hb].
+Qed.
+
+(* ---------- every section of a thread has the shape of a block ---------- *)
+Lemma cut_shape fl oc st cs : forall k,
+  (exists ro rs, fst (cut fl k cs (tail2 fl oc st)) = map okc cs ++ [ECall oc ro; ECall st rs])
+  \/ (exists j c, nth_error cs j = Some c /\ fst (cut fl k cs (tail2 fl oc st)) = map okc (firstn j cs) ++ [ECall c true]).
+Proof.
+  induction cs as [|c cs IH]; intro k; simpl.
+  - left. eauto.
+  - destruct (memb k fl).
+    + right. exists 0, c. split; reflexivity.
+    + destruct (IH (S k)) as [(ro & rs & E)|(j & c' & Hj & E)];
+        destruct (cut fl (S k) cs (tail2 fl oc st)) as [l k']; simpl in *.
+      * left. exists ro, rs. rewrite E. reflexivity.
+      * right. exists (S j), c'. split; [exact Hj|]. rewrite E. reflexivity.
+Qed.
+
+Lemma replay_prefix f n : exists gs, replay f n = prefix_calls (f_start f) n (now_tv f) gs /\ length gs <= 2.
+Proof.
+  unfold replay, prefix_calls.
+  destruct (any_tags (f_global f)), (any_tags (f_test f)).
+  - exists [f_global f; f_test f]. split; [reflexivity | simpl; lia].
+  - exists [f_global f]. split; [reflexivity | simpl; lia].
+  - exists [f_test f]. split; [reflexivity | simpl; lia].
+  - exists []. split; [reflexivity | simpl; lia].
+Qed.
+
+Lemma ptrace_call_shape fl f c k :
+  let '(l, _, _) := ptrace fl (expand f c) f k in l = [] \/ exists body, l = section body /\ block_shape body.
+Proof.
+  destruct c as [a|tn tg|n|n|kd n|g|]; try (simpl; left; reflexivity).
+  - destruct (ptrace_outcome fl f kd n k) as (f' & E & _). rewrite E. right.
+    eexists; split; [reflexivity|].
+    destruct (replay_prefix f n) as (gs & -> & Hl).
+    destruct (cut_shape fl (TOutcome kd n) (TStopTest n) (prefix_calls (f_start f) n (now_tv f) gs) k)
+      as [(ro & rs & ->)|(j & c' & Hj & ->)].
+    + apply bs_full; exact Hl.
+    + apply bs_cut; assumption.
+  - assert (G : forall f0 c0, ptrace fl (guarded (TGuard c0)) f0 k = (section [ECall (TGuard c0) (memb k fl)], f0, S k))
+      by (intros; apply ptrace_guarded).
+    destruct g; simpl expand; try (rewrite G; right; eexists; split; [reflexivity | constructor]).
+    change (ptrace fl (PLoc LStartRun (guarded (TGuard GStartRun))) f k)
+      with (ptrace fl (guarded (TGuard GStartRun)) (apply_lop LStartRun f) k).
+    rewrite G. right; eexists; split; [reflexivity | constructor].
+Qed.
+
+Lemma strace_sections fl s : forall f k,
+  exists bodies, strace fl s f k = flat_map section bodies /\ Forall block_shape bodies.
+Proof.
+  induction s as [|c r IH]; intros f k.
+  - exists []. split; [reflexivity | constructor].
+  - change (strace fl (c :: r) f k) with (let '(l, f', k') := ptrace fl (expand f c) f k in l ++ strace fl r f' k').
+    pose proof (ptrace_call_shape fl f c k) as H.
+    destruct (ptrace fl (expand f c) f k) as [[l f'] k'].
+    destruct (IH f' k') as (bodies & E & Hb). rewrite E.
+    destruct H as [->|(body & -> & Hs)].
+    + exists bodies. split; [reflexivity | exact Hb].
+    + exists (body :: bodies). split; [reflexivity | constructor; assumption].
+Qed.
+
+Theorem blocks_all_schedules l sched :
+  let c := fold_left step' sched (init l) in
+  (exists secs tail, glog c = flat_map render secs ++ tail
+                     /\ Forall (sec_ok (length l)) secs /\ open_tail (length l) (sem c) tail)
+  /\ (forall t sc fl, nth_error l t = Some (sc, fl) ->
+        exists rest bodies, proj t (glog c) ++ rest = flat_map section bodies /\ Forall block_shape bodies).
+Proof.
+  simpl. destruct (ginv_sched l sched) as (HI & HM & [HL HP]). set (c := fold_left step' sched (init l)) in *. split.
+  - unfold MonInv in HM. rewrite HL in HM. simpl in HM. rewrite map_length in HM.
+    apply (proj1 (mon_sections (length l) (glog c))). exact HM.
+  - intros t sc fl Ht.
+    assert (H0 : nth_error (ths (init l)) t = Some (init_thread sc fl None)).
+    { simpl. rewrite (map_nth_error _ _ _ Ht). reflexivity. }
+    destruct (HP t _ H0) as (th & Hn & Hp).
+    assert (Hb0 : fb (init_thread sc fl None) = None) by (unfold init_thread; apply norm_ttrace; reflexivity).
+    destruct (tpath_ttrace _ _ _ Hp Hb0) as [E _]. rewrite init_ttrace in E.
+    destruct (strace_sections fl sc fwd0 0) as (bodies & Eb & Hb).
+    exists (ttrace th), bodies. split; [congruence | exact Hb].
+Qed.
+
+(* ---------- each thread's part of the log, at every moment, is a prefix of what the statement expects ---------- *)
+Theorem per_thread_all_schedules l sched t sc fl :
+  nth_error l t = Some (sc, fl) -> wf_script Out sc = true ->
+  let c := fold_left step' sched (init l) in
+  exists rest, proj t (glog c) ++ rest = expected fl sc sst0 0
+               /\ (forall th, nth_error (ths c) t = Some th -> finished th = true -> rest = []).
+Proof.
+  intros Ht Hw. simpl. destruct (ginv_sched l sched) as (HI & HM & [HL HP]).
+  set (c := fold_left step' sched (init l)) in *.
+  assert (H0 : nth_error (ths (init l)) t = Some (init_thread sc fl None)).
+  { simpl. rewrite (map_nth_error _ _ _ Ht). reflexivity. }
+  destruct (HP t _ H0) as (th & Hn & Hp).
+  assert (Hb0 : fb (init_thread sc fl None) = None) by (unfold init_thread; apply norm_ttrace; reflexivity).
+  destruct (tpath_ttrace _ _ _ Hp Hb0) as [E _]. rewrite init_ttrace in E.
+  rewrite (strace_expected fl sc Out fwd0 sst0 0 Hw rel0) in E.
+  exists (ttrace th). split; [symmetry; exact E|].
+  intros th' Hn' Hf. rewrite Hn in Hn'; injection Hn' as <-.
+  destruct HI as [HI _]. specialize (HI t th Hn).
+  destruct (holds c t).
+  - destruct HI as [Hwin _]. unfold finished in Hf. destruct (pc th); simpl in *; discriminate.
+  - apply finished_ttrace; [apply HI | exact Hf].
+Qed.
+
+(* without faults every outcome of a well-formed script is in the expected log exactly once, in order *)
+Lemma outcomes_app a b : outcomes_of_log (a ++ b) = outcomes_of_log a ++ outcomes_of_log b.
+Proof.
+  induction a as [|e a IH]; simpl; [reflexivity|].
+  destruct e as [| |c raised]; try exact IH. destruct c; simpl; rewrite ?IH; reflexivity.
+Qed.
+
+Lemma cut_nofault cs tail : forall k, cut [] k cs tail = (map okc cs ++ fst (tail (k + length cs)), snd (tail (k + length cs))).
+Proof.
+  induction cs as [|c cs IH]; intro k; simpl.
+  - rewrite Nat.add_0_r. destruct (tail k); reflexivity.
+  - rewrite IH. rewrite <- Nat.add_succ_comm. reflexivity.
+Qed.
+
+Lemma outcomes_tag_call g : outcomes_of_log (map okc (tag_call g)) = [].
+Proof. unfold tag_call. destruct (any_tags g); reflexivity. Qed.
+
+Theorem expected_outcomes_once s : forall p st k,
+  wf_script p s = true -> (match p with Out => True | _ => s_open st <> None end) ->
+  outcomes_of_log (expected [] s st k) = outcomes_of_script s.
+Proof.
+  induction s as [|c r IH]; intros p st k Hwf Hop; [reflexivity|].
+  destruct c as [a|tn tg|n|n|kd n|g|]; simpl in Hwf.
+  - simpl. apply (IH p); [exact Hwf|]. destruct p; simpl; auto.
+  - simpl. apply (IH p); [exact Hwf|]. destruct p; simpl; auto; destruct (s_open st) as [[t0 x]|]; simpl; congruence.
+  - destruct p; try discriminate. simpl. apply (IH (Pre n)); [exact Hwf|]. simpl. discriminate.
+  - destruct p as [|m|m]; try discriminate; apply andb_true_iff in Hwf as [_ Hwf]; simpl; apply (IH Out); auto.
+  - destruct p as [|m|m]; try discriminate. apply andb_true_iff in Hwf as [_ Hwf].
+    destruct (s_open st) as [[t0 x]|] eqn:Eo; [|contradiction].
+    rewrite (expected_outcome [] kd n r st k t0 x Eo). rewrite cut_nofault. simpl fst; simpl snd.
+    unfold section. simpl outcomes_of_log. rewrite !outcomes_app. rewrite !map_app, !outcomes_app, !outcomes_tag_call.
+    simpl. f_equal. apply (IH (Post n)); [exact Hwf|]. simpl. congruence.
+  - destruct g; simpl.
+    + destruct p; try discriminate. apply (IH Out); auto.
+    + apply (IH p); auto.
+    + apply (IH p); auto.
+    + apply (IH p); auto.
+    + apply (IH p); auto.
+  - discriminate.
 Qed.
